@@ -38,7 +38,6 @@ from ampform.dynamics.builder import (
 from ampform.helicity.align import NoAlignment, SpinAlignment
 from ampform.helicity.decay import (
     TwoBodyDecay,
-    get_prefactor,
     group_by_spin_projection,
     group_by_topology,
 )
@@ -563,18 +562,20 @@ class HelicityAmplitudeBuilder:
     def __generate_amplitude_prefactor(
         self, transition: StateTransition
     ) -> sp.Rational | None:
-        prefactor = get_prefactor(transition)
+        prefactor = 1.0
+        for node_id in transition.topology.nodes:
+            interaction = transition.interactions[node_id]
+            if interaction.parity_prefactor is None:
+                continue
+            raw_suffix = self.naming.generate_two_body_decay_suffix(transition, node_id)
+            if raw_suffix in self.naming.parity_partner_coefficient_mapping:
+                coefficient_suffix = self.naming.parity_partner_coefficient_mapping[
+                    raw_suffix
+                ]
+                if coefficient_suffix != raw_suffix:
+                    prefactor *= interaction.parity_prefactor
         if prefactor != 1.0:
-            for node_id in transition.topology.nodes:
-                raw_suffix = self.naming.generate_two_body_decay_suffix(
-                    transition, node_id
-                )
-                if raw_suffix in self.naming.parity_partner_coefficient_mapping:
-                    coefficient_suffix = self.naming.parity_partner_coefficient_mapping[
-                        raw_suffix
-                    ]
-                    if coefficient_suffix != raw_suffix:
-                        return sp.Rational(prefactor)
+            return sp.Rational(prefactor)
         return None
 
 
